@@ -26,6 +26,16 @@ META = {
 }
 
 
+MANIFEST = {
+    "text": "Bounded model checking (SAT) of the real HLCTimestamp::send/recv: inductive one-step harnesses over every valid 64-bit "
+            "clock value, every valid remote stamp and every 4ms-granular 32-bit wall-clock reading (so histories of any length "
+            "follow by induction on 'clock >= everything issued or accepted'), plus explicit 3-call (quick) / 5-call (thorough) "
+            "histories. Nothing is claimed outside those bounds.",
+    "note": "Trusts Kani/CBMC/CaDiCaL, the wall-clock stub (arbitrary reading per call, 32-bit seconds), validity of stamps (fractional<250).",
+    "technique": "Kani/CBMC bounded model checking of the compiled source; symbolic clock, remote stamp and wall clock; native replay",
+}
+
+
 def build(ws, tier, seed, mode):
     d, mounted = common.build_crdt_timestamp_only(ws, mode, ["harness_c09.rs"])
     return {"crates": {"crdt": {"dir": d, "features": ()}}, "mounted": mounted}
